@@ -200,6 +200,186 @@ Qed.
 Theorem monitor_ok_iff tr : callback_monitor tr = VOk <-> trace_ok tr.
 Proof. split; [apply monitor_sound | apply monitor_complete]. Qed.
 
+(* ---- the status clauses ---- *)
+Lemma status_monitor_ok_pos tr :
+  status_monitor tr = VOk <-> forall i, i < length tr -> status_check tr i = None.
+Proof.
+  unfold status_monitor, status_violations.
+  split.
+  - intros H i Hi.
+    destruct (flat_map _ _) eqn:E; try discriminate.
+    rewrite flat_map_nil_iff in E.
+    specialize (E i). rewrite in_seq in E.
+    assert (Hin : 0 <= i < 0 + length tr) by lia.
+    specialize (E Hin). destruct (status_check tr i); auto; discriminate.
+  - intros H.
+    assert (E : flat_map (fun i => match status_check tr i with Some v => [v] | None => [] end)
+                  (seq 0 (length tr)) = []).
+    { apply flat_map_nil_iff. intros i Hi. apply in_seq in Hi. rewrite H by lia. reflexivity. }
+    rewrite E. reflexivity.
+Qed.
+
+Lemma last_pos_acc p pre i acc :
+  (forall e, In e pre -> p e = false) -> last_pos p pre i acc = acc.
+Proof.
+  revert i acc; induction pre as [|e r IH]; intros i acc H; simpl; auto.
+  rewrite (H e (or_introl eq_refl)). apply IH. intros; apply H; simpl; auto.
+Qed.
+
+Lemma last_pos_app p before x mid i acc :
+  p x = true -> (forall e, In e mid -> p e = false) ->
+  last_pos p (before ++ x :: mid) i acc = Some (i + length before).
+Proof.
+  revert i acc; induction before as [|e r IH]; intros i acc Hx H; simpl.
+  - rewrite Hx. rewrite last_pos_acc; [f_equal; lia|exact H].
+  - rewrite IH by assumption. f_equal; lia.
+Qed.
+
+Lemma last_pos_some p pre i acc j :
+  last_pos p pre i acc = Some j ->
+  (acc = Some j /\ forall e, In e pre -> p e = false) \/
+  (exists before x mid, pre = before ++ x :: mid /\ p x = true /\ (forall e, In e mid -> p e = false) /\ j = i + length before).
+Proof.
+  revert i acc; induction pre as [|e r IH]; intros i acc H; simpl in *.
+  - left; split; auto. intros; contradiction.
+  - apply IH in H. destruct H as [[Hacc Hno]|[before [x [mid [E [Hx [Hn Hj]]]]]]].
+    + destruct (p e) eqn:Ee.
+      * right. exists [], e, r. inversion Hacc; subst. repeat split; auto; try (simpl; lia).
+      * left. split; auto. intros e' [He'|He']; subst; auto.
+    + right. exists (e :: before), x, mid. subst. repeat split; auto; try (simpl; lia).
+Qed.
+
+Lemma existsb_false_all (f : event -> bool) l : existsb f l = false <-> forall e, In e l -> f e = false.
+Proof.
+  induction l as [|a l IH]; simpl.
+  - split; intros; auto; contradiction.
+  - rewrite orb_false_iff, IH. split.
+    + intros [H1 H2] e [<-|He]; auto.
+    + intros H. split; [apply H; auto|intros e He; apply H; auto].
+Qed.
+
+Lemma is_req_of_in t l : existsb (is_req_of t) l = true <-> In (EvReq t) l.
+Proof.
+  rewrite existsb_exists. split.
+  - intros [e [He Hr]]. destruct e; simpl in Hr; try discriminate. apply Nat.eqb_eq in Hr. subst. exact He.
+  - intros H. exists (EvReq t). split; auto. simpl. apply Nat.eqb_refl.
+Qed.
+
+Lemma skipn_app_exact {A} (l1 l2 : list A) : skipn (length l1) (l1 ++ l2) = l2.
+Proof. rewrite skipn_app, Nat.sub_diag, skipn_all. reflexivity. Qed.
+
+Lemma is_cb_false_not_in mid : (forall e, In e mid -> is_cancel_begin e = false) <-> ~ In EvCancelBegin mid.
+Proof.
+  split.
+  - intros H Hin. specialize (H _ Hin). discriminate.
+  - intros H e He. destruct e; auto. contradiction.
+Qed.
+Lemma is_db_false_not_in mid : (forall e, In e mid -> is_destroy_begin e = false) <-> ~ In EvDestroyBegin mid.
+Proof.
+  split.
+  - intros H Hin. specialize (H _ Hin). discriminate.
+  - intros H e He. destruct e; auto. contradiction.
+Qed.
+Lemma is_ce_false_not_in mid : (forall e, In e mid -> is_cancel_end e = false) <-> ~ In EvCancelEnd mid.
+Proof.
+  split.
+  - intros H Hin. specialize (H _ Hin). discriminate.
+  - intros H e He. destruct e; auto. contradiction.
+Qed.
+
+Theorem status_monitor_sound tr : status_monitor tr = VOk -> status_ok tr.
+Proof.
+  rewrite status_monitor_ok_pos. intros H. split.
+  - intros before mid t st post E Hn Hne Ht. subst tr.
+    set (pre := before ++ EvCancelBegin :: mid).
+    assert (Etr : before ++ EvCancelBegin :: mid ++ EvCb t st :: post = pre ++ EvCb t st :: post).
+    { unfold pre. rewrite <- app_assoc. reflexivity. }
+    rewrite Etr in H.
+    specialize (H (length pre)). rewrite app_length in H. simpl in H.
+    assert (Hl : length pre < length pre + S (length post)) by lia. specialize (H Hl).
+    unfold status_check in H. rewrite nth_error_app_exact, firstn_app_exact in H.
+    assert (C : cancel_bad pre t st = negb (Z.eqb st ST_CANCELLED)).
+    { unfold cancel_bad, pre. rewrite (last_pos_app is_cancel_begin before EvCancelBegin mid 0 None eq_refl).
+      2:{ apply is_cb_false_not_in. exact Hn. }
+      simpl Nat.add. rewrite skipn_app_exact, firstn_app_exact.
+      assert (X : existsb is_cancel_end (EvCancelBegin :: mid) = false).
+      { simpl. apply existsb_false_all. apply is_ce_false_not_in. exact Hne. }
+      rewrite X. simpl negb. rewrite (proj2 (is_req_of_in t before) Ht). reflexivity. }
+    rewrite C in H. destruct (Z.eqb st ST_CANCELLED) eqn:Es; [apply Z.eqb_eq in Es; exact Es|discriminate].
+  - intros before mid t st post E Hn Hd Ht. subst tr.
+    set (pre := before ++ EvDestroyBegin :: mid).
+    assert (Etr : before ++ EvDestroyBegin :: mid ++ EvCb t st :: post = pre ++ EvCb t st :: post).
+    { unfold pre. rewrite <- app_assoc. reflexivity. }
+    rewrite Etr in H.
+    specialize (H (length pre)). rewrite app_length in H. simpl in H.
+    assert (Hl : length pre < length pre + S (length post)) by lia. specialize (H Hl).
+    unfold status_check in H. rewrite nth_error_app_exact, firstn_app_exact in H.
+    assert (C : destroy_bad pre t st = negb (Z.eqb st ST_DESTRUCTION || Z.eqb st ST_CANCELLED)).
+    { unfold destroy_bad, pre. rewrite (last_pos_app is_destroy_begin before EvDestroyBegin mid 0 None eq_refl).
+      2:{ apply is_db_false_not_in. exact Hn. }
+      simpl Nat.add.
+      assert (Es : skipn (S (length before)) (before ++ EvDestroyBegin :: mid) = mid).
+      { replace (S (length before)) with (length (before ++ [EvDestroyBegin])) by (rewrite app_length; simpl; lia).
+        replace (before ++ EvDestroyBegin :: mid) with ((before ++ [EvDestroyBegin]) ++ mid) by (rewrite <- app_assoc; reflexivity).
+        apply skipn_app_exact. }
+      rewrite Es, firstn_app_exact.
+      rewrite (proj2 (existsb_false_all disturbs mid) Hd). simpl negb.
+      rewrite (proj2 (is_req_of_in t before) Ht). reflexivity. }
+    destruct (cancel_bad pre t st); [discriminate|].
+    rewrite C in H.
+    destruct (Z.eqb st ST_DESTRUCTION) eqn:E1; [left; apply Z.eqb_eq in E1; exact E1|].
+    destruct (Z.eqb st ST_CANCELLED) eqn:E2; [right; apply Z.eqb_eq in E2; exact E2|discriminate].
+Qed.
+
+Theorem status_monitor_complete tr : status_ok tr -> status_monitor tr = VOk.
+Proof.
+  intros [H1 H2]. apply status_monitor_ok_pos. intros i Hi.
+  unfold status_check.
+  destruct (nth_error tr i) as [e|] eqn:E; auto.
+  destruct (split_at _ _ _ E) as [Etr Elen].
+  set (pre := firstn i tr) in *. set (post := skipn (S i) tr) in *.
+  destruct e; auto.
+  assert (C1 : cancel_bad pre t st = false).
+  { unfold cancel_bad. destruct (last_pos is_cancel_begin pre 0 None) as [j|] eqn:L; auto.
+    apply last_pos_some in L. destruct L as [[L _]|[before [x [mid [Ep [Hx [Hn Hj]]]]]]]; [discriminate|].
+    simpl in Hj. subst j. destruct x; simpl in Hx; try discriminate.
+    rewrite Ep, skipn_app_exact, firstn_app_exact.
+    destruct (existsb is_cancel_end (EvCancelBegin :: mid)) eqn:X; [reflexivity|]. simpl negb.
+    destruct (existsb (is_req_of t) before) eqn:Y; [|reflexivity]. simpl andb.
+    simpl in X. rewrite existsb_false_all in X.
+    assert (Etr' : tr = before ++ EvCancelBegin :: mid ++ EvCb t st :: post).
+    { rewrite Etr at 1. rewrite Ep, <- app_assoc. reflexivity. }
+    rewrite (H1 _ _ _ _ _ Etr' (proj1 (is_cb_false_not_in mid) Hn) (proj1 (is_ce_false_not_in mid) X) (proj1 (is_req_of_in t before) Y)).
+    reflexivity. }
+  rewrite C1.
+  assert (C2 : destroy_bad pre t st = false).
+  { unfold destroy_bad. destruct (last_pos is_destroy_begin pre 0 None) as [j|] eqn:L; auto.
+    apply last_pos_some in L. destruct L as [[L _]|[before [x [mid [Ep [Hx [Hn Hj]]]]]]]; [discriminate|].
+    simpl in Hj. subst j. destruct x; simpl in Hx; try discriminate.
+    assert (Es : skipn (S (length before)) pre = mid).
+    { rewrite Ep.
+      replace (S (length before)) with (length (before ++ [EvDestroyBegin])) by (rewrite app_length; simpl; lia).
+      replace (before ++ EvDestroyBegin :: mid) with ((before ++ [EvDestroyBegin]) ++ mid) by (rewrite <- app_assoc; reflexivity).
+      apply skipn_app_exact. }
+    rewrite Es. rewrite Ep at 1. rewrite firstn_app_exact.
+    destruct (existsb disturbs mid) eqn:X; [reflexivity|]. simpl negb.
+    destruct (existsb (is_req_of t) before) eqn:Y; [|reflexivity]. simpl andb.
+    rewrite existsb_false_all in X.
+    assert (Etr' : tr = before ++ EvDestroyBegin :: mid ++ EvCb t st :: post).
+    { rewrite Etr at 1. rewrite Ep, <- app_assoc. reflexivity. }
+    destruct (H2 _ _ _ _ _ Etr' (proj1 (is_db_false_not_in mid) Hn) X (proj1 (is_req_of_in t before) Y)) as [->| ->]; reflexivity. }
+  rewrite C2. reflexivity.
+Qed.
+
+Theorem status_monitor_ok_iff tr : status_monitor tr = VOk <-> status_ok tr.
+Proof. split; [apply status_monitor_sound | apply status_monitor_complete]. Qed.
+
+Example status_monitor_rejects :
+  status_monitor [EvReq 1; EvCancelBegin; EvCb 1 0%Z; EvCancelEnd; EvEnd] = VBad (VWrongStatusAtCancel 1 0%Z)
+  /\ status_monitor [EvReq 1; EvDestroyBegin; EvCb 1 0%Z; EvDestroyEnd; EvEnd] = VBad (VWrongStatusAtDestroy 1 0%Z)
+  /\ status_monitor [EvReq 1; EvReq 2; EvDestroyBegin; EvCb 1 16%Z; EvReq 3; EvCb 3 11%Z; EvCb 2 11%Z; EvDestroyEnd; EvEnd] = VOk.
+Proof. vm_compute. repeat split. Qed.
+
 (* the hypotheses are satisfiable by a non-trivial trace, and the monitor does reject *)
 Example trace_ok_example :
   trace_ok [EvReq 1; EvReq 2; EvCb 1 0%Z; EvCancelBegin; EvCb 2 24%Z; EvCancelEnd; EvDestroyBegin; EvDestroyEnd; EvEnd].
